@@ -3,6 +3,7 @@
 #include <memory>
 #include <optional>
 #include "common_types.h"
+#include "crash.h"
 
 #ifdef TEAKRA_VERIF
 // Verification hook (off by default): reports every DSP memory word access to a
@@ -25,6 +26,7 @@ struct SharedMemory {
     }
 
     u16 ReadWord(u32 word_address) const {
+        ASSERT(word_address < 0x40000);
 #ifdef TEAKRA_VERIF
         teakra_verif_mem_access(word_address, false);
 #endif
@@ -34,6 +36,7 @@ struct SharedMemory {
         return low | ((u16)high << 8);
     }
     void WriteWord(u32 word_address, u16 value) {
+        ASSERT(word_address < 0x40000);
 #ifdef TEAKRA_VERIF
         teakra_verif_mem_access(word_address, true);
 #endif
